@@ -33,6 +33,8 @@ mod ioslice;
 
 pub use byte_arena::AnchoredSlice;
 pub use byte_arena::ByteArena;
+#[cfg(woodpile_verif)]
+pub use byte_arena::verif;
 pub use implementation::Backref;
 pub use implementation::ConsumingIovec;
 pub use implementation::OwningIovec;
